@@ -42,6 +42,7 @@ type held struct {
 
 type world struct {
 	cfg      int
+	fill     bool // storage probe: populate every nil reference field of Device before constructing
 	devices  []uhppote.Device
 	u        uhppote.IUHPPOTE
 	fake     *drv.Fake
@@ -130,7 +131,15 @@ func (w *world) construct(cfg int) {
 	for _, d := range w.devices {
 		w.built[d.DeviceID] = renderDevice(d)
 	}
+	if w.fill {
+		for i := range w.devices {
+			fillReferences(reflect.ValueOf(&w.devices[i]).Elem())
+		}
+	}
 	w.u = uhppote.NewUHPPOTE(types.BindAddr{}, types.BroadcastAddr{}, types.ListenAddr{}, time.Second, w.devices, false)
+	if sh := sharedStorage(w.devices, w.u); len(sh) > 0 {
+		w.viol("client-shares-storage-with-caller-configuration", fmt.Sprintf("the client built by NewUHPPOTE reaches storage of the caller's device list (a = caller's []Device, b = client): %v", sh))
+	}
 	drv.Install(w.u, w.fake)
 	w.list = nil
 	for k := range w.flags {
@@ -231,6 +240,9 @@ func (w *world) apply(ev string) {
 	case "device-list":
 		if w.u != nil {
 			w.list = w.u.DeviceList()
+			if sh := sharedStorage(w.list, w.devices); len(sh) > 0 {
+				w.viol("device-list/shares-storage-with-caller-configuration", fmt.Sprintf("the map returned by DeviceList reaches storage of the caller's device list (a = DeviceList(), b = caller's []Device): %v", sh))
+			}
 			// the list must describe the configuration as constructed (name, id, address, protocol)
 			for id, want := range w.built {
 				if d, ok := w.list[id]; ok && renderDevice(d) != want {
@@ -329,6 +341,9 @@ func (w *world) apply(ev string) {
 		if cardView(c) != cardView(w.card) {
 			w.viol("clone/card-not-equal", "Card.Clone() differs from the original")
 		}
+		if sh := sharedStorage(w.card, c); len(sh) > 0 {
+			w.viol("clone/card-shares-storage", fmt.Sprintf("Card.Clone() shares mutable storage with the original (a = original, b = clone): %v", sh))
+		}
 		before := render(w.card)
 		c.Doors[1], c.Doors[4] = 77, 78
 		c.PIN = 1
@@ -350,6 +365,9 @@ func (w *world) apply(ev string) {
 			c := orig.Clone()
 			if renderDevice(c) != renderDevice(orig) {
 				w.viol("clone/device-not-equal", fmt.Sprintf("Device.Clone() = %s, original %s", renderDevice(c), renderDevice(orig)))
+			}
+			if sh := sharedStorage(orig, c); len(sh) > 0 {
+				w.viol("clone/device-shares-storage", fmt.Sprintf("Device.Clone() shares mutable storage with the original (a = original, b = clone): %v", sh))
 			}
 			before := renderDevice(orig)
 			if len(c.Doors) > 0 {
@@ -425,6 +443,24 @@ func main() {
 		r.Count(1)
 		r.Distinct(2)
 		r.Finish()
+	}
+
+	// storage probe: the same three configurations with every reference-typed field of Device that is
+	// nil given a fresh non-nil value by reflection (so a field this harness does not know by name takes
+	// part); no call is made through these clients - only who reaches whose storage is examined
+	for cfg := 0; cfg < 3; cfg++ {
+		w := newWorld(func(key, what string) {
+			r.Violation("C17/"+key, fmt.Sprintf("%s — configuration %d with every nil reference field of Device populated", what, cfg), "history", map[string]any{"events": []string{fmt.Sprintf("construct-%d", cfg), "clone-device-mutate", "device-list"}})
+		})
+		w.fill = true
+		if p, msg, frame := vk.Guard(func() {
+			w.construct(cfg)
+			w.apply("clone-device-mutate")
+			w.apply("device-list")
+		}); p {
+			r.Violation("C17/panic/"+frame, msg+" — storage probe", "history", map[string]any{"events": []string{fmt.Sprintf("construct-%d", cfg)}})
+		}
+		r.Count(3)
 	}
 
 	var mu sync.Mutex
